@@ -15,7 +15,7 @@ RULE = ('one evaluation = one text pushed through compress_code, a length header
         'positions), or one stream pushed through decompress_code; every evaluation is compared with the extracted '
         'model (correspondence) and judged by the extracted reference decoder (monitor). Groups: exhaustive = every '
         'string of length <= 8 (quick) / <= 10 (thorough) over {a, =, newline, A}; lua = structured Lua-like texts; '
-        'edge = repeats at distances 3118..3122 x lengths 16..18; cut = every prefix of texts built around a block; '
+        'edge = repeats at distances 3118..3122 x lengths 16..18 and every distance 3100..3159 x length 17; cut = every prefix of texts built around a block; '
         'update60 = texts mentioning _update60 (all endings, tails running into the appended suffix, texts ending with '
         'the suffix); streams = random well-formed streams incl. overlapping references and every cut of the last block; '
         'malformed = random / truncated / dangling-reference streams (correspondence only). '
@@ -160,11 +160,15 @@ def generate(tier, rng):
     yield _texts('random', [rng.randbytes(rng.choice([1, 2, 7, 30, 300, 1000])) for _ in range(40 if quick else 400)])
     # 3. window edge: a block of length L repeated at distance d
     edge = []
-    for d in (3118, 3119, 3120, 3121, 3122) if quick else range(3110, 3131):
-        for L in (16, 17, 18) if quick else (3, 4, 15, 16, 17, 18, 19, 34, 35):
-            blk = bytes(rng.choice(b'abcdefghijklmnopqrstuvwxyz_=()') for _ in range(L))
-            lead = _filler(rng, rng.choice([0, 1, 40]))
-            edge.append(lead + blk + _filler(rng, d - L) + blk + _filler(rng, rng.choice([0, 3])))
+    combos = [(d, L) for d in ((3118, 3119, 3120, 3121, 3122) if quick else range(3110, 3131))
+              for L in ((16, 17, 18) if quick else (3, 4, 15, 16, 17, 18, 19, 34, 35))]
+    # every distance from well inside to well past the window (a window constant changed by a few blocks of 16
+    # must show up as a different choice or as a packing failure), block length 17
+    combos += [(d, 17) for d in range(3100, 3160) if (d, 17) not in combos]
+    for d, L in combos:
+        blk = bytes(rng.choice(b'abcdefghijklmnopqrstuvwxyz_=()') for _ in range(L))
+        lead = _filler(rng, rng.choice([0, 1, 40]))
+        edge.append(lead + blk + _filler(rng, d - L) + blk + _filler(rng, rng.choice([0, 3])))
     for i in range(0, len(edge), 5):
         yield _texts('edge', edge[i:i + 5])
     # 4. every cut position of texts built around blocks
